@@ -198,6 +198,7 @@ type Exec struct {
 	clockLast *smt.Term
 	tierVals  map[string]int
 	sleep     map[string]footprint
+	fdCache   map[*pbFieldInfo]*PRField
 }
 
 type pathEnd struct {
